@@ -1,6 +1,8 @@
 package main
 
 import (
+	"fmt"
+	"os"
 	"go/token"
 	"go/types"
 	"strings"
@@ -272,16 +274,24 @@ func (f *Flow) edgeFacts(from *ssa.BasicBlock, succIdx int, out Facts) Facts {
 			if v := evalBool(f.C.Term(ifi.Cond), f.withAssumptions(res)); v != 0 && (v == 1) != want {
 				return nil
 			}
-			res.Add(a)
-			conj := addConjuncts(res, a)
-			f.unitPropagate(res, a)
-			f.saturate(res)
-			// a conjunct may itself be a validator's verdict
-			for _, cj := range conj {
-				f.addDerived(res, cj)
+			// a condition on a snapshot that still equals the live value is also a condition on the live value
+			// (both forms are kept: the live form dies with the next write, the snapshot form stays true)
+			forms := []*Atom{a}
+			if la := f.liveAtom(res, a); la != nil {
+				forms = append(forms, la)
 			}
-			// what a validator's verdict implies is materialised here, so that later writes kill it fact by fact
-			f.addDerived(res, a)
+			for _, a := range forms {
+				res.Add(a)
+				conj := addConjuncts(res, a)
+				f.unitPropagate(res, a)
+				f.saturate(res)
+				// a conjunct may itself be a validator's verdict
+				for _, cj := range conj {
+					f.addDerived(res, cj)
+				}
+				// what a validator's verdict implies is materialised here, so that later writes kill it fact by fact
+				f.addDerived(res, a)
+			}
 		}
 	}
 	// loop normal exit: add the generalised facts
@@ -301,6 +311,20 @@ func (f *Flow) edgeFacts(from *ssa.BasicBlock, succIdx int, out Facts) Facts {
 
 // transfer applies one instruction to the fact set (in place).
 func (f *Flow) transfer(in ssa.Instruction, facts Facts) {
+	f.transfer1(in, facts)
+	// a snapshot taken here equals the live read until the next write of what it reads
+	if v, ok := in.(ssa.Value); ok {
+		switch in.(type) {
+		case *ssa.Call, *ssa.UnOp:
+			f.C.Term(v)
+			for _, pr := range f.C.snap[in] {
+				facts.Add(atomOf(Bin("==", pr[0], pr[1]), f.A.P.InstrPos(in)))
+			}
+		}
+	}
+}
+
+func (f *Flow) transfer1(in ssa.Instruction, facts Facts) {
 	switch x := in.(type) {
 	case *ssa.Store:
 		if l := f.A.addrLoc(x.Addr); l != "" {
@@ -575,6 +599,30 @@ func (f *Flow) unitPropagate(facts Facts, a *Atom) {
 	}
 }
 
+// liveAtom: a with every snapshot sub-term replaced by its live read, for the snapshots whose equality with the live
+// read is currently known (nil when nothing changes).
+func (f *Flow) liveAtom(facts Facts, a *Atom) *Atom {
+	m := map[string]*Term{}
+	for _, t := range a.Args {
+		t.Walk(func(x *Term) {
+			if x.Op == "pre" && strings.HasSuffix(x.Name, "!snap") && len(x.Args) == 1 {
+				if facts.Has(atomOf(Bin("==", x, x.Args[0]), "")) != nil {
+					m[x.Key()] = x.Args[0]
+				}
+			}
+		})
+	}
+	if len(m) == 0 {
+		return nil
+	}
+	n := a.Subst(m)
+	n.Site = a.Site
+	if n.Key() == a.Key() {
+		return nil
+	}
+	return n
+}
+
 // saturate: unit propagation over every clause-shaped fact until nothing new is learned (bounded).
 func (f *Flow) saturate(facts Facts) {
 	for round := 0; round < 4; round++ {
@@ -621,6 +669,9 @@ func (f *Flow) addDerived(facts Facts, a *Atom) {
 		var next []*Atom
 		for _, x := range work {
 			for _, d := range f.A.expandCtx(x, &sumCtx{facts: facts, assume: f.Assume}) {
+				if dbg := os.Getenv("LH_DEBUG_DERIVE"); dbg != "" && strings.Contains(x.Key(), dbg) && strings.Contains(x.Key(), "!snap") {
+					fmt.Fprintf(os.Stderr, "derive from %.80s... : %.300s\n", x.Key(), d.Key())
+				}
 				if _, ok := facts[d.Key()]; ok {
 					continue
 				}
